@@ -257,11 +257,11 @@ async def execute(ctx, sc, prefix):
                 else:
                     key = f"output-differs:{c['kind']}"
                 return counts, (key, f"connection {i}: wrote {[dict(g[1]).get('message') or [k[2] for k in g[3]] for g in got]}", out[-400:])
-            if c["kind"] == "tty":
-                # every write must be followed by a flush before the next write starts
+            if c["kind"] == "tty" and sc.stalled is None:
+                # a message has only "appeared" once it was flushed: the last completed operation must be a flush
                 ops = [k for k, d in c["file"].out]
-                for a, b in zip(ops, ops[1:]):
-                    pass
+                if ops and ops[-1] != "flush":
+                    return counts, ("tty-output-not-flushed", f"connection {i}: operations {ops[-6:]}", out[-200:])
         failed = mon.failed()
         if failed:
             return counts, (f"task-died:{failed[0][0].split('.')[-1]}", failed[0][1], None)
